@@ -422,3 +422,25 @@ v("c02-cte-key-none-as-text", "C02", "near_sql.py",
   "            ops_key = f\"{self.near_sql.ops_key}\"\n            if self.columns is not None:\n                ops_key = f\"{ops_key}_{list(self.columns)}\"\n")
 v("c02-merge-keeps-old-ops_key", "C02", SM,
   "                # the merged step no longer computes what its original key describes\n                subsql.ops_key = f\"extend({extend_node}, {subsql.terms.keys()})\"\n", "")
+
+# ---------------------------------------------------------------- C13
+PBL = "parse_by_lark.py"
+v("c13-minus-maps-to-add", "C13", PBL, "    \"-\": \"__sub__\",", "    \"-\": \"__add__\",")
+v("c13-floordiv-maps-to-truediv", "C13", PBL, "    \"//\": \"__floordiv__\",", "    \"//\": \"__truediv__\",")
+v("c13-unary-minus-pos", "C13", PBL, "    \"-\": \"__neg__\",  # unary!", "    \"-\": \"__pos__\",  # unary!")
+v("c13-term-sub-emits-plus", "C13", "expr_rep.py", "        return self.__op_expr__(\"-\", other)", "        return self.__op_expr__(\"+\", other)")
+v("c13-rsub-not-reflected", "C13", "expr_rep.py", "        return self.__rop_expr__(\"-\", other)", "        return self.__op_expr__(\"-\", other)")
+v("c13-rop-does-not-swap", "C13", "expr_rep.py", "        return Expression(op, (other, self), inline=inline, method=method)", "        return Expression(op, (self, other), inline=inline, method=method)")
+v("c13-grammar-mul-below-add", "C13", "python3_lark.py",
+  "?arith_expr: term (_add_op term)*\n?term: factor (_mul_op factor)*", "?arith_expr: term (_mul_op term)*\n?term: factor (_add_op factor)*")
+v("c13-grammar-power-left-operand", "C13", "python3_lark.py", "?power: await_expr (\"**\" factor)?", "?power: await_expr (\"**\" await_expr)*")
+v("c13-grammar-not-above-and", "C13", "python3_lark.py",
+  "?and_test: not_test (\"and\" not_test)*\n?not_test: \"not\" not_test -> not\n         | comparison", "?and_test: comparison (\"and\" comparison)*\n?not_test: \"not\" not_test -> not\n         | comparison")
+v("c13-chained-comparison-left-fold", "C13", PBL,
+  "                if (r_op.data == \"comparison\") and (nc > 3):", "                if (r_op.data == \"comparison\") and (nc > 5):")
+v("c13-fold-right", "C13", PBL,
+  "                    res = getattr(res, op_name)(\n                        _r_walk_lark_tree(r_op.children[2 * i + 2])\n                    )",
+  "                    res = getattr(_r_walk_lark_tree(r_op.children[2 * i + 2]), op_name)(\n                        res\n                    )")
+v("c13-not-is-eq-true", "C13", PBL, "                return getattr(left, op_name)(data_algebra.expr_rep.Value(False))", "                return getattr(left, op_name)(data_algebra.expr_rep.Value(True))")
+v("c13-minus-nary", "C13", PBL, "                    if op_name in {\"+\", \"*\"}:", "                    if op_name in {\"+\", \"*\", \"-\"}:")
+v("c13-twin-dict-format", "C13", PBL, "    \"==\": \"__eq__\",\n    \"!=\": \"__ne__\",", "    \"!=\": \"__ne__\",\n    \"==\": \"__eq__\",", expect="silent")
